@@ -47,6 +47,15 @@ impl<Error: Send + 'static> DecodeScheduler<Error> {
 		command_readers: DecodeSchedulerCommandReaders,
 		error_producer: Producer<Error>,
 	) -> Result<(Self, Consumer<TimestampedFrame>), Error> {
+		// under kira_verif the frame ring capacity can be overridden at run time
+		#[cfg(kira_verif)]
+		struct RingBuffer;
+		#[cfg(kira_verif)]
+		impl RingBuffer {
+			fn new<T>(capacity: usize) -> (Producer<T>, Consumer<T>) {
+				rtrb::RingBuffer::new(crate::verif::stream_ring_capacity(capacity))
+			}
+		}
 		let (mut frame_producer, frame_consumer) = RingBuffer::new(BUFFER_SIZE);
 		// pre-seed the frame ringbuffer with a zero frame. this is the "previous" frame
 		// when the sound just started.
@@ -93,6 +102,8 @@ impl<Error: Send + 'static> DecodeScheduler<Error> {
 
 	pub fn start(mut self) {
 		std::thread::spawn(move || loop {
+			#[cfg(kira_verif)]
+			crate::verif::point("dec.top");
 			match self.run() {
 				Ok(result) => match result {
 					NextStep::Continue => {}
@@ -102,6 +113,8 @@ impl<Error: Send + 'static> DecodeScheduler<Error> {
 				Err(error) => {
 					self.error_producer.push(error).ok();
 					self.shared.encountered_error.store(true, Ordering::SeqCst);
+					#[cfg(kira_verif)]
+					crate::verif::point("dec.err");
 				}
 			}
 		});
@@ -110,10 +123,14 @@ impl<Error: Send + 'static> DecodeScheduler<Error> {
 	pub fn run(&mut self) -> Result<NextStep, Error> {
 		// if the sound was manually stopped, end the thread
 		if self.shared.state() == PlaybackState::Stopped {
+			#[cfg(kira_verif)]
+			crate::verif::point("dec.end.stopped");
 			return Ok(NextStep::End);
 		}
 		// if the frame ringbuffer is full, sleep for a bit
 		if self.frame_producer.is_full() {
+			#[cfg(kira_verif)]
+			crate::verif::point("dec.wait");
 			return Ok(NextStep::Wait);
 		}
 		// check for commands
@@ -137,6 +154,8 @@ impl<Error: Send + 'static> DecodeScheduler<Error> {
 		self.transport.increment_position(self.num_frames);
 		if !self.transport.playing {
 			self.shared.reached_end.store(true, Ordering::SeqCst);
+			#[cfg(kira_verif)]
+			crate::verif::point("dec.end.reached");
 			return Ok(NextStep::End);
 		}
 		Ok(NextStep::Continue)
